@@ -135,7 +135,7 @@ def r08_14(chk, P, rule='R08.14'):
     for fn in ('ov_raw_seek', 'ov_pcm_seek_page', 'ov_pcm_seek', 'ov_time_seek_page', 'ov_time_seek'):
         F = P.need(fn)
         A, h = k2.analyse(P, F, [('moved', moves, True)])
-        rets = [(e, fl, v) for (e, fl, v, env) in k2.ret_value_classes(A) if v is None or (v.lo <= 0 <= v.hi)]
+        rets = [(e, fl, v) for (e, fl, v, env) in k2.ret_value_classes(A) if v is None or (v.lo <= 0 <= v.hi and 0 not in (v.ne or ()))]
         chk.require(rets, f'{fn} has no return that may be 0')
         bad = [(e, fl, v) for (e, fl, v) in rets if 'moved' not in fl]
         chk.ob(rule, fn, 'success-only-after-repositioning', not bad, F.where(bad[0][0]) if bad else F.where(rets[0][0]),
